@@ -4,7 +4,9 @@ from .. import core, pilgen as PG
 
 MODULES = ['DsdVerif.Props.C19']
 GEN_FILES = ['Grammars']
-THEOREMS = []
+THEOREM_NAMES = ['run_fuel_mono', 'input_rt', 'output_fluor_rt', 'input_fluor_rejected', 'reporter_rt', 'reporter_arity_rejected',
+                 'inputfanout_rt', 'seesaw_rt', 'wireconc_rt', 'negative_conc_rejected']
+THEOREMS = ['Dsd.C19.' + t for t in THEOREM_NAMES]
 ASSUMPTIONS = [
     'pyparsing 3.3.2 is modelled by a hand-written interpreter (Model/Pyparsing.lean); the seesaw grammar term (Gen/Grammars.lean: '
     'ssw_grammar) is regenerated from seesaw_parser.py on every run; agreement with the real library by correspondence only',
@@ -12,13 +14,14 @@ ASSUMPTIONS = [
     'comment lines, LF or CRLF',
 ]
 MANIFEST = {
-    'text': 'Partial. The seesaw grammar is regenerated from seesaw_parser.py into a Lean term interpreted by the model of pyparsing; the '
-            'correspondence stream compares model and pyparsing on grammar-generated statements of every kind (all list lengths, numeric '
-            'forms, identifier shapes) in random layouts, on documents, on the systematic negative family (argument deletion / insertion / '
-            'kind swap for every macro, negative concentrations, INPUT bound to a fluorophore) and on random mutations; the round-trip '
-            'and rejection clauses are decided on the real parser by a reference renderer.',
+    'text': 'Partial. The seesaw grammar is regenerated from seesaw_parser.py into a Lean term interpreted by the model of pyparsing. '
+            'Proved for the regenerated grammar, for numbers of any length, brace lists of any length and any amount of blanks: input_rt, '
+            'output_fluor_rt, reporter_rt, inputfanout_rt, seesaw_rt, wireconc_rt, and the rejections input_fluor_rejected, '
+            'reporter_arity_rejected, negative_conc_rejected. Gate / threshold concentrations, seesawOR / seesawAND, identifiers in '
+            'INPUT/OUTPUT, comments, documents and files are NOT theorems: they are decided on the real parser by a reference renderer, '
+            'and the model is compared with pyparsing on the same texts, the systematic negative family and random mutations.',
     'note': 'pyparsing semantics is modelled by hand and tied by differential testing only.',
-    'technique': 'Lean 4 interpreter model of pyparsing over a grammar regenerated from source; correspondence check; reference renderer oracle',
+    'technique': 'Lean 4 symbolic execution of a pyparsing interpreter over the grammar regenerated from source (induction on list length); correspondence check; reference renderer oracle',
 }
 
 
